@@ -346,6 +346,17 @@ def classify_move_source(e, fn, F, sym):
             if flag is True and firsts and of_game and ("first" in t):
                 return "first-of-checked-list", {"buffer": buf, "receiver": recv, "value": t}
             return "unverified-list", {"checked": flag, "receiver": recv, "value": t}
+    # `moves.first().copied()` of a buffer filled elsewhere in the function (the statements of an expanded helper): provenance (S7)
+    from .prov import Prov
+    pv = Prov(fn, F)
+    cls = pv.classify(e0)
+    if cls[0] == "first-of-checked":
+        recv = pv.buffers[cls[1]]["recv"]
+        if recv == "game" or recv.endswith("clone(game)"):
+            return "first-of-checked-list", {"buffer": cls[1], "receiver": recv, "value": hir.fmt(s, 120)}
+        return "unverified-list", {"checked": True, "receiver": recv, "value": hir.fmt(s, 120)}
+    if cls[0] == "first-of-UNCHECKED":
+        return "unverified-list", {"checked": False, "value": hir.fmt(s, 120)}
     # a component of the let-else pattern on get_best_move_entry
     if e0.get("k") == "Path" and e0["to"].get("res") == "local":
         nm = e0["to"]["name"]
